@@ -4,16 +4,22 @@ EXTENDS Isolate, Json
 
 CONSTANTS JobSet     \* name of the set of jobs a thread may run: [Threads -> Jobs(JobSet)] are the initial states
 
-D(u, posts) == [u |-> u, posts |-> posts]
+D(u, posts) == [u |-> u, posts |-> posts, ty |-> 0]      \* a transaction
+DT(u, ty) == [u |-> u, posts |-> <<>>, ty |-> ty]          \* a directive of another type (1 price, 2 event, ...)
 (* two ledgers; row n of one scan is not the directive of row n of another scan (other ledger, or other table) *)
 LA == << D(11, <<111, 112>>), D(12, <<121>>), D(13, <<131>>) >>
 LB == << D(21, <<211>>), D(22, <<221, 222>>), D(23, <<231>>) >>
 LA2 == << D(11, <<111, 112>>), D(12, <<121>>) >>
 LB2 == << D(21, <<211>>), D(22, <<221>>) >>
+(* mixed ledgers: the typed tables are proper selections of the directives *)
+LM == << DT(41, 1), D(42, <<421>>), DT(43, 1), DT(44, 2), DT(45, 1) >>
+LM2 == << DT(41, 1), D(42, <<421>>), DT(43, 2), DT(44, 1) >>
 
 Mk(conn, ledger, tab, star, targets, where, lo, hi, lit, wp, pp) ==
     [conn |-> conn, ledger |-> ledger, tab |-> tab, star |-> star, targets |-> targets, where |-> where,
-     lo |-> lo, hi |-> hi, lit |-> lit, wpause |-> wp, ppause |-> pp]
+     lo |-> lo, hi |-> hi, lit |-> lit, wpause |-> wp, ppause |-> pp, ty |-> 0, parse |-> 0]
+Ty(j, ty) == [j EXCEPT !.ty = ty]                  \* tab "x": the directive type of the typed table
+Text(j, n) == [j EXCEPT !.parse = n]               \* submitted as text, n places inside the parser where it can be descheduled
 col(i) == At("col", i)
 aRp == At("rp", 0)
 aCp == At("cp", 0)
@@ -28,16 +34,21 @@ Jobs3 ==
       Mk(1, LA, "p", TRUE, <<>>, <<aLo, aCp, aHi>>, 112, 131, FALSE, TRUE, FALSE),                   \* SELECT *, pause in the wildcard and between the parameters
       Mk(2, LB, "e", FALSE, <<col(2), aRp>>, <<>>, 0, 0, TRUE, FALSE, FALSE),                      \* other ledger
       Mk(2, LB, "p", FALSE, <<aCp, col(2), col(3)>>, <<aHi, aRp>>, 0, 222, TRUE, FALSE, FALSE),
-      Mk(3, LA, "e", FALSE, <<col(1), aCp, col(2)>>, <<aRp, aLo>>, 12, 0, FALSE, FALSE, FALSE) }     \* same ledger, separate connection
+      Mk(3, LA, "e", FALSE, <<col(1), aCp, col(2)>>, <<aRp, aLo>>, 12, 0, FALSE, FALSE, FALSE),      \* same ledger, separate connection
+      Ty(Mk(4, LM, "x", FALSE, <<col(2), aRp, col(3)>>, <<>>, 0, 0, TRUE, FALSE, FALSE), 1),         \* a typed table, pause in every row
+      Text(Ty(Mk(4, LM, "x", FALSE, <<col(3)>>, <<aRp, aHi>>, 0, 43, TRUE, FALSE, FALSE), 1), 1),   \* the same typed table; submitted as text
+      Text(Mk(2, LB, "e", FALSE, <<col(2)>>, <<aHi>>, 0, 22, FALSE, FALSE, FALSE), 2) }              \* text, two places inside the parser
 Jobs2 ==
     { Mk(1, LA2, "e", FALSE, <<col(2), aRp>>, <<aLo, aHi>>, 11, 11, FALSE, FALSE, TRUE),
       Mk(1, LA2, "p", TRUE, <<>>, <<aCp, aHi>>, 0, 112, FALSE, TRUE, FALSE),
       Mk(2, LB2, "e", FALSE, <<col(2), aRp, col(3)>>, <<>>, 0, 0, TRUE, FALSE, FALSE),
-      Mk(3, LA2, "p", FALSE, <<col(2), aRp>>, <<aLo>>, 112, 0, FALSE, FALSE, FALSE) }
+      Mk(3, LA2, "p", FALSE, <<col(2), aRp>>, <<aLo>>, 112, 0, FALSE, FALSE, FALSE),
+      Text(Ty(Mk(4, LM2, "x", FALSE, <<col(2), aRp>>, <<>>, 0, 0, TRUE, FALSE, FALSE), 1), 1),
+      Ty(Mk(4, LM2, "x", FALSE, <<aRp, col(3)>>, <<aLo>>, 41, 0, TRUE, FALSE, FALSE), 1) }
 (* quick tier, 3 threads: thread t runs the t-th job (the threads are interchangeable; pairs of EQUAL jobs are in "3rows") *)
 JobSeq2 == << Mk(1, LA2, "e", FALSE, <<col(2), aRp>>, <<aLo, aHi>>, 11, 11, FALSE, FALSE, TRUE),
               Mk(1, LA2, "p", TRUE, <<>>, <<aCp, aHi>>, 0, 112, FALSE, TRUE, FALSE),
-              Mk(2, LB2, "e", FALSE, <<col(2), aRp, col(3)>>, <<>>, 0, 0, TRUE, FALSE, FALSE) >>
+              Text(Mk(2, LB2, "e", FALSE, <<col(2), aRp, col(3)>>, <<>>, 0, 0, TRUE, FALSE, FALSE), 1) >>
 (* the smallest families the broken mechanisms fail on *)
 JobsCompiler ==
     { Mk(1, LA2, "e", FALSE, <<col(2)>>, <<aLo, aHi>>, 11, 11, FALSE, FALSE, TRUE),
@@ -45,9 +56,15 @@ JobsCompiler ==
 JobsMemo ==
     { Mk(1, LA2, "e", FALSE, <<col(2), aRp>>, <<>>, 0, 0, TRUE, FALSE, FALSE),
       Mk(2, LB2, "e", FALSE, <<col(2), aRp>>, <<>>, 0, 0, TRUE, FALSE, FALSE) }
+JobsParser ==
+    { Text(Mk(1, LA2, "e", FALSE, <<col(2)>>, <<>>, 0, 0, TRUE, FALSE, FALSE), 1),
+      Text(Mk(2, LB2, "e", FALSE, <<col(2)>>, <<>>, 0, 0, TRUE, FALSE, FALSE), 1) }
+JobsScan ==
+    { Ty(Mk(4, LM2, "x", FALSE, <<col(2), aRp>>, <<>>, 0, 0, TRUE, FALSE, FALSE), 1) }
 Jobs(name) ==
     CASE name = "3rows" -> Jobs3 [] name = "2rows" -> Jobs2
       [] name = "compiler" -> JobsCompiler [] name = "memo" -> JobsMemo
+      [] name = "parser" -> JobsParser [] name = "scan" -> JobsScan
 
 (* a connection holds one ledger *)
 Coherent(p) == \A t, u \in Threads : p[t].conn = p[u].conn => p[t].ledger = p[u].ledger
